@@ -96,6 +96,37 @@ def cfg_dicts(opt: str) -> dict:
     return _CFG_CACHE[opt]
 
 
+def one_parameter_variants(opt: str) -> list[tuple[str, dict]]:
+    """configuration 1 with exactly one algorithm parameter changed, one variant per parameter that can be changed"""
+    import pyvolutionary
+    C = getattr(pyvolutionary, gen.FIX[opt]["config_class"])
+    c1 = cfg_dicts(opt)[1]
+    out = []
+    for k, v in c1.items():
+        if k in ("population_size", "max_cycles", "fitness_error", "early_stopping") or isinstance(v, (bool, str, dict)) or v is None:
+            continue
+        for factor in (1.5, 0.5, 1.1, 0.9):
+            if isinstance(v, int):
+                cand = v + (1 if factor > 1 else -1) * (2 if factor in (1.5, 0.5) else 1)
+            elif isinstance(v, float):
+                cand = v * factor
+            elif isinstance(v, list) and all(isinstance(q, (int, float)) and not isinstance(q, bool) for q in v):
+                cand = [q * factor if isinstance(q, float) else q for q in v]
+                if cand == v:
+                    break
+            else:
+                break
+            trial = {**c1, k: cand}
+            try:
+                C(**trial)
+            except Exception:
+                continue
+            if gen.precondition(opt, trial, TASKS[1]) is None:
+                out.append((k, trial))
+                break
+    return out
+
+
 def bad_dicts(opt: str) -> list[dict]:
     """parameter dictionaries the config model must reject: a wrong type, and (if one can be found) an out-of-range value"""
     import pyvolutionary
@@ -156,7 +187,24 @@ def replay(opt: str, histories: list[list], refs: dict) -> list[dict]:
     def did(s):
         return dig.setdefault(s, len(dig) + 1)
     out = []
-    for hid, h in enumerate(histories):
+    base_cds, base_refs = cds, refs
+    runs = [(hid, h, base_cds, base_refs, "") for hid, h in enumerate(histories)]
+    # one-parameter variants: the model's history Construct(1) Optimize(t) SetConfig(2) Optimize(t) with configuration "2"
+    # concretised as configuration 1 with exactly ONE parameter changed (every parameter in turn): a value derived from
+    # that parameter and cached by the earlier run must not survive.  The reference for the variant is a fresh instance
+    # constructed with it (in this interpreter).
+    if histories:
+        for pname, vd in one_parameter_variants(opt):
+            ref2 = {}
+            try:
+                with _quiet(), warnings.catch_warnings(), np.errstate(all="ignore"):
+                    warnings.simplefilter("ignore")
+                    ref2 = {"raised": "", "digest": digest(X(C(**vd)).optimize(T.build_task(TASKS[1])))}
+            except Exception as ex:
+                ref2 = {"raised": type(ex).__name__, "digest": ""}
+            vrefs = {f"{opt}/1/1": base_refs.get(f"{opt}/1/1"), f"{opt}/2/1": ref2}
+            runs.append((1, [("Construct", 1), ("Optimize", 1), ("SetConfig", 2), ("Optimize", 1)], {1: base_cds[1], 2: vd}, vrefs, f"@{pname}"))
+    for hid, h, cds, refs, vtag in runs:
         events = []
         for k in (1, 2):
             for t in (1, 2):
@@ -164,7 +212,7 @@ def replay(opt: str, histories: list[list], refs: dict) -> list[dict]:
                 if r is not None:
                     events.append({"ev": "Ref", "t": t, "cfgid": iid(dump_cfg(C(**cds[k]))), "raised": r["raised"],
                                    "seedtype": bool(r.get("seedtype")), "digest": did(r["digest"]) if r["digest"] else 0})
-        if hid == 0:
+        if hid == 0 and not vtag:
             # cross-interpreter reproducibility on the integer-coded / string-labelled task: reference from another
             # interpreter (different PYTHONHASHSEED), then the same key here on a fresh instance
             r = refs.get(f"{opt}/1/3")
@@ -205,7 +253,7 @@ def replay(opt: str, histories: list[list], refs: dict) -> list[dict]:
                         continue
                     d = bads[nbad % len(bads)] if x == -1 else cds[x]
                     nbad += 1 if x == -1 else 0
-                    if x != -1 and (hid + len(events)) % 2 == 1:
+                    if x != -1 and not vtag and (hid + len(events)) % 2 == 1:
                         # a dictionary that only carries the required parameters: the others must take the config model's
                         # DEFAULTS, whatever configuration the instance had before
                         dmin = {k: v for k, v in cds[x].items() if C.model_fields[k].is_required()}
@@ -275,7 +323,7 @@ def replay(opt: str, histories: list[list], refs: dict) -> list[dict]:
                 elif a == "PerturbStd":
                     random.random()
             events.append(e)
-        out.append({"opt": opt, "events": events, "shape": "·".join(f"{a}{x if a in ('Construct', 'SetConfig') else ''}" for a, x in h)})
+        out.append({"opt": opt, "events": events, "shape": "·".join(f"{a}{x if a in ('Construct', 'SetConfig') else ''}" for a, x in h) + vtag})
     return out
 
 
